@@ -121,7 +121,7 @@ impl<'a> Fine<'a> {
 #[derive(Clone, Debug, PartialEq, Eq, Hash)]
 struct MState {
     catch: bool, waker: bool,
-    /// P: 0 idle (between polls), 1 at P0, 2 at P2 (flag read as false), 3 at P3 (waker published), 9 returned
+    /// P: 0 idle (between polls), 1 at P0, 2 at P2 (flag read as false), 3 at P3 (waker published), 4 at PX (flag observed), 9 returned
     p: u8,
     /// H: 0 not started, 1..=4 at H0..H3, 9 done;  took = the swap took a waker
     h: u8, took: bool,
@@ -134,10 +134,10 @@ impl MState {
     fn init() -> Self { MState { catch: false, waker: false, p: 0, h: 0, took: false, pwake: true, p_first: false, sig: false, conn_pending: false, conns: 0, last: 0 } }
     fn enabled(&self, max_conn: u8) -> Vec<&'static str> {
         let mut v = vec![];
-        if self.p != 9 && (matches!(self.p, 1 | 2 | 3) || (self.p == 0 && self.pwake)) { v.push("P") }
+        if self.p != 9 && (matches!(self.p, 1 | 2 | 3 | 4) || (self.p == 0 && self.pwake)) { v.push("P") }
         if matches!(self.h, 1..=4) { v.push("H") }
         if !self.sig && self.p_first { v.push("SIG") }
-        if self.conns < max_conn && self.p_first && self.p != 9 { v.push("CONN") }
+        if self.conns < max_conn && self.p_first && self.p != 9 { v.push("CONN") }   // (p == 4: the listener still exists until P is stepped past PX)
         let last = if self.last == 0 { "P" } else { "H" };
         if v.contains(&last) { v.retain(|a| *a != last); v.insert(0, last); }
         v
@@ -148,9 +148,10 @@ impl MState {
             "P" => { n.last = 0; match self.p {
                 0 => { n.pwake = false; n.p = 1; n.p_first = true }                                  // a poll starts and reaches P0
                 1 => { if self.conn_pending { n.conn_pending = false; n.p = 1 }                          // accept is ready: session spawned, next until_interrupt poll -> P0 again
-                       else if self.catch { n.p = 9 } else { n.p = 2 } }                                 // accept pending: read the flag
+                       else if self.catch { n.p = 4 } else { n.p = 2 } }                                 // accept pending: read the flag
                 2 => { n.waker = true; n.p = 3 }                                                          // publish the waker
-                3 => { if self.catch { n.p = 9 } else { n.p = 0 } }                                      // the re-check after publishing (the fix), else Pending
+                3 => { if self.catch { n.p = 4 } else { n.p = 0 } }                                      // the re-check after publishing (the fix), else Pending
+                4 => { n.p = 9 }                                                                          // until_interrupt returns None: howl leaves the accept loop
                 _ => unreachable!() } }
             "H" => { n.last = 1; match self.h {
                 1 => { n.catch = true; n.h = 2 }                                                          // store
